@@ -26,7 +26,7 @@ import time
 
 V = os.path.dirname(os.path.dirname(os.path.abspath(__file__)))
 D = os.path.join(V, "seeded", "translator")
-DEFAULT_CHECKS = ["C20", "C06", "C07", "C14", "C16", "C17", "C12", "C02"]
+DEFAULT_CHECKS = ["C20", "C06", "C07", "C14", "C16", "C17", "C12", "C02", "C11", "C15"]
 
 
 def sh(cmd, cwd=None, env=None, timeout=3000):
